@@ -1735,11 +1735,20 @@ fn eval_for_in(
     let iteree_idx = match iteree_idx_value.as_ref() {
         Value_::Int(i) => *i,
         _ => {
-            unreachable!(
-                "`for` loop index should always be an `Int`, got `{}`: {}",
-                iteree_idx_value.display(env),
-                outer_expr.position.as_ide_string(&env.project_root)
-            )
+            // The loop keeps its index on the value stack. If an
+            // earlier step left a stray value there (e.g. `continue`
+            // in the middle of an expression), report it rather than
+            // crashing the interpreter.
+            return Err((
+                RestoreValues(vec![iteree_idx_value.clone(), iteree_value.clone()]),
+                EvalError::Exception(ExceptionInfo {
+                    position: outer_expr.position.clone(),
+                    message: ErrorMessage(vec![Text(format!(
+                        "Internal error: the `for` loop index should be an `Int`, but got `{}`.",
+                        iteree_idx_value.display(env),
+                    ))]),
+                }),
+            ));
         }
     };
 
